@@ -188,6 +188,26 @@ class NPRand(types.ModuleType):
         return getattr(np, name)
 
 
+class SparseProxy(types.ModuleType):
+    def __getattr__(self, n):
+        import scipy.sparse as sp
+        return getattr(sp, n)
+
+    def vstack(self, blocks, **kw):
+        import scipy.sparse as sp
+
+        class csrT(sp.csr_matrix):
+            @property
+            def T(self):
+                t = self.__dict__.get("_T_set")
+                return t if t is not None else sp.csr_matrix(self).T
+
+            @T.setter
+            def T(self, v):
+                self.__dict__["_T_set"] = v
+        return csrT(sp.vstack(blocks, **kw))
+
+
 # ----------------------------------------------------------------------------------------------------------
 # havoc'd estimator
 # ----------------------------------------------------------------------------------------------------------
@@ -299,6 +319,10 @@ def prepare(V, name):
                 if f.__defaults__ and any(d is np.random for d in f.__defaults__):
                     f.__defaults__ = tuple(RNGP if d is np.random else d for d in f.__defaults__)
         shims.shadow(mod, _persist=True, print=lambda *a, **k: None)
+        if name == "adaptive_grid":
+            # environment stand-in: on the installed scipy `Q.T = sparse.csr_matrix(Q.T)` raises (no setter), so the unchanged mechanism
+            # cannot produce any output here; vstack returns a csr subclass with a settable .T (value-neutral) so that it can be analysed
+            shims.shadow(mod, _persist=True, sparse=SparseProxy("sparse_proxy"))
         _PREPARED[name] = True
     if V.symbolic and key not in _PREPARED:
         kw = {"np": shims.NPM}
